@@ -40,6 +40,12 @@ class C03(Check):
             for r in range(reps):
                 out.append({"owner": owner, "cls": cname, "geom": {"n": 3 + r % 3, "g": [1 + r, 2, -3, 4, r, 5]},
                             "ops": [{"attr": attr, "seed": [1 + r, 2 * r + 1, 3, r]}], "reload_first": bool(r % 2)})
+            # two assignments to the SAME attribute: a typical value, then the falsy/default value (a reset);
+            # and a whole-number int followed by a fractional float (stored type must follow the value)
+            out.append({"owner": owner, "cls": cname, "geom": {"n": 3, "g": [1, 2, -3, 4, 0, 5]},
+                        "ops": [{"attr": attr, "seed": [5, 3, 1]}, {"attr": attr, "seed": [0]}], "reload_first": False})
+            out.append({"owner": owner, "cls": cname, "geom": {"n": 3, "g": [1, 2, -3, 4, 0, 5]},
+                        "ops": [{"attr": attr, "seed": [100]}, {"attr": attr, "seed": [3, 1, 2]}], "reload_first": True})
         return out
 
     def strategy(self, tier):
@@ -136,6 +142,7 @@ class C03(Check):
                     res.fail(f"C03/getter-differs-after-assign/{owner}/{cname}/{attr}",
                              f"assigned {want!r:.300}, getter returns {got!r:.300}")
                     return res
+                done = [d for d in done if d[0] != attr]  # a later assignment to the same attribute supersedes
                 done.append((attr, want, getter, before != want))
             if not done:
                 return res
